@@ -1,0 +1,86 @@
+//go:build verif
+
+// Contracts (worker w-c09) for property C08, evaluation-level clauses. Comments only.
+// Vocabulary: /verif/specs/97_pattern.spec/.smt2 (evalok/evalv, bindok/bindsc/bindcx, supd, evald log).
+package rel
+
+// ---- (a) `e1 -> \p e2`  ==  `(\p e2)(e1)`  ==  `let p = e1; e2` --------------------------------------
+// letmeaning: the documented meaning of `let p = e1; e2` in (ctx, σ): evaluate e1, bind p to its value under σ,
+// evaluate e2 in σ updated with the bindings (and the context the binding returns).
+// ArrowExpr.Eval is stated against it directly; Closure.CallAll (what `(\p e2)(e1)` reaches through
+// Function.Eval -> NewClosure(σ, f) -> SetCall -> CallAll(ctx, value of e1)) is stated against the same terms,
+// and lemma.arrow_is_call shows the two agree.
+//@ func (*ArrowExpr).Eval(e; ctx, local)
+//@   tags C08, C10
+//@   assigns fresh-only
+//@   modifies evald
+//@   returns (v, err)
+//@   requires e != nil && e.lhs != nil && e.fn != nil && e.fn.arg != nil && e.fn.body != nil
+//@   ensures[C08] lhsfail: !evalok(e.lhs, ctx, sc(local)) ==> err != nil
+//@   ensures[C08] nomatch: evalok(e.lhs, ctx, sc(local)) && !bindok(e.fn.arg, ctx, sc(local), evalv(e.lhs, ctx, sc(local))) ==> err != nil
+//@   ensures[C08] let: evalok(e.lhs, ctx, sc(local)) && bindok(e.fn.arg, ctx, sc(local), evalv(e.lhs, ctx, sc(local))) ==> letbody(e.fn.arg, e.fn.body, ctx, sc(local), evalv(e.lhs, ctx, sc(local)), v, err)
+
+// Function.Eval: a function literal evaluates to the closure over the current scope (never fails)
+//@ func (*Function).Eval(f; ctx, local)
+//@   tags C08, C10
+//@   assigns fresh-only
+//@   returns (v, err)
+//@   ensures[C08] closure: err == nil && v is Closure && v.(Closure).scope == local && v.(Closure).f == f
+
+// Closure.CallAll with a unary function: adds exactly the value of the body in the captured scope updated by
+// binding the parameter to the argument.
+//@ func (Closure).CallAll(c; ctx, arg, b)
+//@   tags C08, C10
+//@   assigns fresh-only
+//@   modifies added, evald
+//@   requires c.f != nil && c.f.arg != nil && c.f.body != nil
+//@   requires unary: arg != nil
+//@   requires forall x: Val :: !added[x]
+//@   ensures[C08] nomatch: !bindok(c.f.arg, ctx, sc(c.scope), arg) ==> result != nil && added == old(added)
+//@   ensures[C08] call: bindok(c.f.arg, ctx, sc(c.scope), arg) ==> exists v: Val :: letbody(c.f.arg, c.f.body, ctx, sc(c.scope), arg, v, result) && (result == nil ==> added == store(old(added), v, true)) && (result != nil ==> added == old(added))
+
+// ---- (b) default binder: ExprAsFunction(e) is `\. e` --------------------------------------------------
+//@ func NewFunction(scanner, arg, body)
+//@   tags C08, C10
+//@   assigns fresh-only
+//@   ensures result is *Function && result.(*Function) != nil && fresh(result.(*Function)) && result.(*Function).arg == arg && result.(*Function).body == body
+
+//@ func ExprAsFunction(expr)
+//@   tags C08, C10
+//@   assigns fresh-only
+//@   requires expr != nil
+//@   ensures[C08] isfn: expr is *Function ==> result == expr.(*Function)
+//@   ensures[C08] dot: !(expr is *Function) ==> result != nil && result.body == expr && result.arg is IdentPattern && result.arg.(IdentPattern) == "."
+
+// ---- (d) laziness: only the selected branches are evaluated --------------------------------------------
+// evald is the log of entered evaluations; "everything newly logged lies under X or Y" = nothing else was evaluated.
+//@ func (*IfElseExpr).Eval(e; ctx, local)
+//@   tags C08, C10
+//@   assigns fresh-only
+//@   modifies evald
+//@   returns (v, err)
+//@   requires e != nil && e.cond != nil && e.ifTrue != nil && e.ifFalse != nil
+//@   ensures[C08] thenval: evalok(e.cond, ctx, sc(local)) && istrue(evalv(e.cond, ctx, sc(local))) ==> (err == nil) == evalok(e.ifTrue, ctx, sc(local)) && (err == nil ==> v == evalv(e.ifTrue, ctx, sc(local)))
+//@   ensures[C08] elseval: evalok(e.cond, ctx, sc(local)) && !istrue(evalv(e.cond, ctx, sc(local))) ==> (err == nil) == evalok(e.ifFalse, ctx, sc(local)) && (err == nil ==> v == evalv(e.ifFalse, ctx, sc(local)))
+//@   ensures[C08] thenlazy: evalok(e.cond, ctx, sc(local)) && istrue(evalv(e.cond, ctx, sc(local))) ==> forall y: Val :: evald[y] && !old(evald)[y] ==> evunder(y, e.cond) || evunder(y, e.ifTrue)
+//@   ensures[C08] elselazy: evalok(e.cond, ctx, sc(local)) && !istrue(evalv(e.cond, ctx, sc(local))) ==> forall y: Val :: evald[y] && !old(evald)[y] ==> evunder(y, e.cond) || evunder(y, e.ifFalse)
+
+//@ func (AndExpr).Eval(e; ctx, local)
+//@   tags C08, C10
+//@   assigns fresh-only
+//@   modifies evald
+//@   returns (v, err)
+//@   requires e.a != nil && e.b != nil
+//@   ensures[C08] short: evalok(e.a, ctx, sc(local)) && !istrue(evalv(e.a, ctx, sc(local))) ==> err == nil && v == evalv(e.a, ctx, sc(local))
+//@   ensures[C08] lazy: evalok(e.a, ctx, sc(local)) && !istrue(evalv(e.a, ctx, sc(local))) ==> forall y: Val :: evald[y] && !old(evald)[y] ==> evunder(y, e.a)
+//@   ensures[C08] full: evalok(e.a, ctx, sc(local)) && istrue(evalv(e.a, ctx, sc(local))) && evalok(e.b, ctx, sc(local)) ==> err == nil && v == evalv(e.b, ctx, sc(local))
+
+//@ func (OrExpr).Eval(e; ctx, local)
+//@   tags C08, C10
+//@   assigns fresh-only
+//@   modifies evald
+//@   returns (v, err)
+//@   requires e.a != nil && e.b != nil
+//@   ensures[C08] short: evalok(e.a, ctx, sc(local)) && istrue(evalv(e.a, ctx, sc(local))) ==> err == nil && v == evalv(e.a, ctx, sc(local))
+//@   ensures[C08] lazy: evalok(e.a, ctx, sc(local)) && istrue(evalv(e.a, ctx, sc(local))) ==> forall y: Val :: evald[y] && !old(evald)[y] ==> evunder(y, e.a)
+//@   ensures[C08] full: evalok(e.a, ctx, sc(local)) && !istrue(evalv(e.a, ctx, sc(local))) && evalok(e.b, ctx, sc(local)) ==> err == nil && v == evalv(e.b, ctx, sc(local))
